@@ -5,7 +5,7 @@
                             SlotEntry::decode
    Hand-transcribed with the checks the code ACTUALLY makes, as of /repo commits c8c46cc (from_page ->
    check_slot_geometry), 7292838 (value_at compares the u64 length with the room left) and 4d4f2e6
-   (HNSW get_slot / read_node_data use checked `get`):
+   (HNSW get_slot / read_node_data use checked `get`) and 672ee79 (14-bit slot offsets):
      * slot_at (leaf, interior) still compares the index only with the stored u16 count and then slices
        `&self.data[offset..offset + SLOT]` unchecked - it is from_page that now rejects a page whose
        announced slot array does not fit (slots_end <= free_start <= free_end <= PAGE_SIZE);
@@ -153,10 +153,11 @@ Definition hnsw_slot_count (d : list Z) : res Z := h <- hnsw_hdr d ;; Ok (le h 0
 (* free_end.saturating_sub(free_start) *)
 Definition hnsw_free_space (d : list Z) : res Z := h <- hnsw_hdr d ;; Ok (Z.max 0 (le h 4 2 - le h 2 2)).
 
-(* SlotEntry::decode: (offset, status 0 Free / 1 Active / 2 Deleted, size) *)
+(* SlotEntry::decode: (offset, status 0 Free / 1 Active / 2 Deleted, size).  Since 672ee79 the offset has 14 bits:
+   bits 0-12 of the first u16 and its bit 15; bits 13-14 are the status *)
 Definition slot_decode (b : list Z) : Z * Z * Z :=
   let os := le b 0 2 in
-  (os mod 8192, code012 ((os / 8192) mod 4), le b 2 2).
+  (os mod 8192 + (os / 32768) * 8192, code012 ((os / 8192) mod 4), le b 2 2).
 
 (* get_slot(slot_index: u16) -> Option<SlotEntry> *)
 Definition hnsw_get_slot (d : list Z) (si : Z) : res (option (Z * Z * Z)) :=
